@@ -4,12 +4,12 @@ from __future__ import annotations
 import ast
 from typing import Any
 
-from ..astutil import bool_atoms, call_name, cfg_of, constructs_error, norm, short, stmt_calls, truth_table, where
+from ..astutil import Locals, call_name, cfg_of, constructs_error, norm, region, resolved_text, short, terminals, where
 from ..cfg import CFG, ENTRY, EXIT, walk_own
 from ..charclass import S, members
 from ..core import PKG, Report
 from ..domain import CONFIG, CONST, ENUM, IDENT, NUM, WORD
-from .effects import callee_of, effect_sites, operand_av, performing
+from .effects import bind_call, callee_of, effect_sites, in_context, operand_av, performing
 
 LEVEL = ("effect analysis: every filesystem/process effect site of the package is enumerated; its path operand (string "
          "structure from the abstract interpreter) must be project_dir/package_dir joined with literal or sanitised components, "
@@ -34,7 +34,9 @@ def run(rep: Report, ctx: Any) -> str:
     rep.assumptions += ["--output-path, project/package name overrides and the working directory are the user's own (CONFIG)",
                         "post-hook commands come from the configuration"]
     cfgs: dict[str, CFG] = {}
-    effs = [e for e in effect_sites(ix)]
+    # an effect performed by a helper on a path it is handed (`_render_to(path, ...)`) is stated at each call of the helper, with the
+    # argument as its path: destinations and the order of effects read the same whether a write is spelled out or routed through a helper
+    effs = in_context(ix, effect_sites(ix))
     # keep only effects whose operand is a path / process (drop str.replace & co.)
     real = []
     for e in effs:
@@ -42,16 +44,17 @@ def run(rep: Report, ctx: Any) -> str:
         if e.what in ("replace", "rename") and (av is None or "Path" not in av.types):
             continue
         real.append((e, av))
-    # the floor counts destinations (kind of effect + structure of its path: literal text, a mark per computed component), not
-    # syntactic sites: one helper writing for several callers, or several sites writing the same kind of file, are one destination
-    def _dest(e: Any, av: Any) -> tuple:
+    # the floor counts destinations (kind of effect + structure of its path: literal text, a mark per computed component, the directory
+    # it starts from), not syntactic sites: one helper writing for several callers, or several sites writing the same kind of file, count
+    # by what they write to
+    def _dests(e: Any, av: Any) -> set[tuple]:
         if av is None or not av.alts:
-            return (e.what, norm(e.target) if e.target is not None else "")
-        return (e.what, tuple(sorted("".join(p.text if p.kind == "lit" else "{}" for p in alt[1:]) for alt in av.alts)),
-                tuple(sorted({alt[0].text.rsplit(".", 1)[-1] for alt in av.alts if alt})))
+            return {(e.what, norm(e.target) if e.target is not None else "")}
+        return {(e.what, "".join(p.text if p.kind == "lit" else "{}" for p in alt[1:]), alt[0].text.rsplit(".", 1)[-1] if alt else "")
+                for alt in av.alts}
 
     rep.indexed["effect_sites"] = len(real)
-    rep.floor("effect_destinations", len({_dest(e, av) for e, av in real}), 20)
+    rep.floor("effect_destinations", len({d for e, av in real for d in _dests(e, av)}), 11)
     proj = ix.cls("Project")
     for e, av in real:
         key = f"{short(e.func)}::{e.what}({norm(e.target)[:50] if e.target is not None else ''})"
@@ -126,8 +129,8 @@ def run(rep: Report, ctx: Any) -> str:
     # post hooks: cwd = project_dir, command from config
     runs = [(e, av) for e, av in real if e.what == "run"]
     for e, av in runs:
-        kw = {k.arg: k.value for k in e.node.keywords}
-        cmd = e.node.args[0] if e.node.args else None
+        kw = {k.arg: k.value for k in e.site.keywords}
+        cmd = e.site.args[0] if e.site.args else None
         cav = it.node_av.get(id(cmd)) if cmd is not None else None
         rep.check("cwd" in kw and cav is not None and cav.labels <= {CONFIG, CONST}, "R19.1", f"{short(e.func)}::run-cwd-and-command",
                   "post-hook process not confined to project_dir or command not from configuration", e.where,
@@ -138,71 +141,139 @@ def run(rep: Report, ctx: Any) -> str:
     rep.require(build, "Project.build")
     cfg = cfg_of(build, cfgs)
     # effect summary: methods of Project with (transitive) effects
-    eff_methods = {e.func.name for e, _ in real}
+    eff_methods = {e.func.qual for e, _ in real} | {e.site_func.qual for e, _ in real}
     changed = True
     while changed:
         changed = False
         for m in proj.methods.values():
-            if m.name in eff_methods:
+            if m.qual in eff_methods:
                 continue
-            if any(isinstance(c, ast.Call) and isinstance(c.func, ast.Attribute) and isinstance(c.func.value, ast.Name) and
-                   c.func.value.id == "self" and c.func.attr in eff_methods for c in ast.walk(m.node)):
-                eff_methods.add(m.name)
+            if any(isinstance(c, ast.Call) and getattr(callee_of(ix, m, c), "qual", None) in eff_methods for c in ast.walk(m.node)):
+                eff_methods.add(m.qual)
                 changed = True
-    tries = [s for s in cfg.stmts() if isinstance(s, ast.Try) and any(stmt_calls(x, "project_dir.mkdir") for x in s.body)]
-    rep.require(tries, "the mkdir decision in Project.build")
-    tr = tries[0]
+
+    # the existing-directory decision: the creation of project_dir whose FileExistsError is caught - in build itself or in a private
+    # helper build delegates to
+    def creates_project_dir(f: Any, s_: ast.stmt) -> bool:
+        return isinstance(s_, ast.Try) and any(h.type is not None and "FileExistsError" in norm(h.type) for h in s_.handlers) and any(
+            e.site_func is f and e.what in ("mkdir", "makedirs") and e.origin is None and "project_dir" in resolved_text(e.target, f.node)
+            and any(x is e.node for b in s_.body for x in ast.walk(b)) for e, _ in real)
+
+    found = [(g, s_) for g in region(ix, build) for s_ in cfg_of(g, cfgs).stmts() if creates_project_dir(g, s_)]
+    rep.require(found, "the existing-directory decision (creation of project_dir with a FileExistsError handler) in Project.build or a "
+                       "helper it calls")
+    dfn, tr = found[0]
+    decision_nodes = {id(e.node) for e, _ in real if e.site_func is dfn and any(x is e.node for b in tr.body for x in ast.walk(b))}
+
+    # when the directory exists and config.overwrite is false, every way through the handler ends in a returned error - however the
+    # test is written (`if not overwrite: return err` / `if overwrite: ... else: return err` / `if overwrite: return None; return err`)
+    def no_overwrite(t: ast.expr) -> "bool | None":
+        if isinstance(t, (ast.Name, ast.Attribute)) and any(x.strip().endswith("overwrite") for x in resolved_text(t, dfn.node).split(" <- ")):
+            return False
+        return None
+
     handler_ok = False
+    refusals: set[ast.stmt] = set()   # the statements of build that leave it with the refusal
     for h in tr.handlers:
         if h.type is not None and "FileExistsError" in norm(h.type):
-            for n in ast.walk(h):
-                # a decision on config.overwrite whose arm for "overwrite is false" returns an error, whichever way the test is
-                # written (`if not overwrite: return [error]` / `if overwrite: ... else: return [error]`): truth table of the test
-                ow = [a for a in bool_atoms(n.test) if a.endswith("overwrite")] if isinstance(n, ast.If) else []
-                if not ow:
-                    continue
-                rows = [(env, val) for env, val in truth_table(n.test) if not env[ow[0]]]
-                if rows and all(any(isinstance(st, ast.Return) and constructs_error(st.value) for st in (n.body if val else n.orelse))
-                                for _, val in rows):
-                    handler_ok = True
+            terms, falls = terminals(h.body, no_overwrite)
+            handler_ok = bool(terms) and not falls and all(isinstance(x, ast.Return) and constructs_error(x.value) for x in terms)
+            if dfn is build:
+                refusals |= terms
     rep.check(handler_ok, "R19.2", "Project.build::existing-directory-decision",
-              "an existing output directory does not lead to `return [GeneratorError]` unless config.overwrite", where(build, tr),
+              "an existing output directory does not lead to a returned GeneratorError unless config.overwrite", where(dfn, tr),
               lhs=norm(tr)[:120], rhs="except FileExistsError: if not self.config.overwrite: return [GeneratorError(...)]")
+    # the point of build after which the decision has been taken: the try itself, or - when a helper takes it - the test of the
+    # helper's result whose error arm leaves build with that error
+    point: ast.stmt | None = tr
+    if dfn is not build:
+        def is_decision_call(n: ast.AST) -> bool:
+            return isinstance(n, ast.Call) and callee_of(ix, build, n) is dfn
+
+        holders = {name for name, ds in Locals(build.node).defs.items() for _k, _st, v in ds
+                   if v is not None and any(is_decision_call(x) for x in ast.walk(v))}
+
+        def is_result(x: ast.AST) -> bool:
+            return (isinstance(x, ast.Name) and x.id in holders) or is_decision_call(x) or \
+                (isinstance(x, ast.NamedExpr) and is_result(x.value))
+
+        def refused(t: ast.expr) -> "bool | None":
+            """the test, given that the helper returned its error"""
+            if is_result(t):
+                return True
+            if isinstance(t, ast.Compare) and len(t.ops) == 1 and is_result(t.left) and isinstance(t.comparators[0], ast.Constant) \
+                    and t.comparators[0].value is None:
+                return isinstance(t.ops[0], (ast.IsNot, ast.NotEq))
+            if isinstance(t, ast.Call) and call_name(t) == "isinstance" and t.args and is_result(t.args[0]):
+                return True
+            return None
+
+        point = None
+        for s_ in cfg.stmts():
+            if isinstance(s_, ast.If) and any(is_result(x) for x in ast.walk(s_.test)):
+                terms, falls = terminals([s_], refused)
+                if terms and not falls and all(isinstance(x, ast.Return) and x.value is not None and
+                                               (any(is_result(y) for y in ast.walk(x.value)) or constructs_error(x.value)) for x in terms):
+                    point = s_
+                    refusals |= terms
+                    break
+        rep.check(point is not None, "R19.2", "Project.build::decision-propagated",
+                  f"the error returned by {short(dfn)} (existing directory, no overwrite) does not make build return it", where(build, build.node),
+                  lhs=sorted(holders), rhs="if <result> is not None: return [<result>]")
+        # inside the helper nothing else happens before the decision
+        cd = cfg_of(dfn, cfgs)
+        for e, _ in real:
+            if e.func is dfn and id(e.node) not in decision_nodes:
+                for st in cd.stmts():
+                    if any(x is e.node for x in walk_own(st)):
+                        rep.check(cd.is_dominated_by(st, lambda n: n is tr), "R19.2", f"{short(dfn)}::{norm(st)[:50]}",
+                                  "an effect can happen before the existing-directory decision", where(dfn, st), lhs=norm(st)[:60],
+                                  rhs="dominated by the mkdir try")
     n_calls = 0
     for s in cfg.stmts():
-        if isinstance(s, ast.Try) or s in tr.body:
+        if isinstance(s, ast.Try) or s is point:
             continue
-        callee = [c.func.attr for c in ast.walk(s) if isinstance(c, ast.Call) and isinstance(c.func, ast.Attribute) and
-                  isinstance(c.func.value, ast.Name) and c.func.value.id == "self" and c.func.attr in eff_methods]
-        direct = [e for e, _ in real if e.func is build and any(x is e.node for x in ast.walk(s))]
+        own = [c for c in walk_own(s) if isinstance(c, ast.Call)]
+        callee = [g.name for g in (callee_of(ix, build, c) for c in own) if g is not None and g.qual in eff_methods and g is not dfn]
+        direct = [e for e, _ in real if e.func is build and id(e.node) not in decision_nodes and any(x is e.node for x in own)]
         if not callee and not direct:
             continue
         n_calls += 1
-        rep.check(cfg.is_dominated_by(s, lambda n: n is tr), "R19.2", f"Project.build::{norm(s)[:50]}",
+        rep.check(point is not None and cfg.is_dominated_by(s, lambda n: n is point), "R19.2", f"Project.build::{norm(s)[:50]}",
                   "an effect can happen before the existing-directory decision", where(build, s), lhs=norm(s)[:60],
-                  rhs="dominated by the mkdir try")
-    rep.floor("effectful_steps_in_build", n_calls, 4)
+                  rhs="dominated by the decision (mkdir try / test of its result)")
+    rep.floor("effectful_steps_in_build", n_calls, 2)
     init = proj.methods.get("__init__")
     rep.check(not any(e.func is init for e, _ in real), "R19.2", "Project.__init__::no-effects", "effect in Project.__init__",
               where(init, init.node) if init else "")
-    # overwrite flag plumbing (shared with C16 R16.1)
+    # overwrite flag plumbing (shared with C16 R16.1): the values the command receives for --overwrite / --output-path arrive, never
+    # rebound, at the parameters of the same names of Config.from_sources - through whatever chain of calls of the package, by
+    # position or by keyword
     cli_gen = ix.func("cli.generate")
-    pc = ix.func("cli._process_config")
-    ok = False
-    for c in ast.walk(cli_gen.node):
-        if isinstance(c, ast.Call) and call_name(c) == "_process_config":
-            kw = {k.arg: norm(k.value) for k in c.keywords}
-            ok = kw.get("overwrite") == "overwrite" and kw.get("output_path") == "output_path"
-    assigns = [n for n in ast.walk(pc.node) if isinstance(n, (ast.Assign, ast.AugAssign, ast.AnnAssign)) and
-               any(isinstance(x, ast.Name) and x.id in ("overwrite", "output_path") and isinstance(x.ctx, ast.Store) for x in ast.walk(n))]
-    fs = [c for c in ast.walk(pc.node) if isinstance(c, ast.Call) and call_name(c).endswith("from_sources")]
-    passed = False
-    for c in fs:
-        argtxt = [norm(a) for a in c.args] + [f"{k.arg}={norm(k.value)}" for k in c.keywords]
-        passed = "overwrite" in argtxt and ("output_path=output_path" in argtxt or "output_path" in argtxt)
-    rep.check(ok and passed and not assigns, "R19.2", "cli::overwrite-plumbing",
-              "the --overwrite / --output-path values are modified or not forwarded verbatim on their way to Config", where(pc, pc.node),
-              lhs=[norm(a)[:60] for a in assigns], rhs="forwarded unmodified")
+    rebound: list[str] = []
+
+    def forwarded(f: Any, pname: str, want: str, depth: int = 3, seen: tuple = ()) -> bool:
+        if any(isinstance(n, ast.Name) and n.id == pname and isinstance(n.ctx, (ast.Store, ast.Del)) for n in ast.walk(f.node)):
+            rebound.append(f"{short(f)}: {pname}")
+            return False
+        for c in ast.walk(f.node):
+            if not isinstance(c, ast.Call):
+                continue
+            g = callee_of(ix, f, c)
+            if g is None or g.qual in seen:
+                continue
+            for p_, a in (bind_call(ix, f, c, g) or {}).items():
+                if isinstance(a, ast.Name) and a.id == pname:
+                    if g.name == "from_sources" and p_ == want:
+                        return True
+                    if depth > 0 and forwarded(g, p_, want, depth - 1, (*seen, f.qual)):
+                        return True
+        return False
+
+    ok = all(forwarded(cli_gen, nm, nm) for nm in ("overwrite", "output_path"))
+    rep.check(ok, "R19.2", "cli::overwrite-plumbing",
+              "the --overwrite / --output-path values are modified or not forwarded verbatim on their way to Config", where(cli_gen, cli_gen.node),
+              lhs=rebound, rhs="forwarded unmodified")
 
     # ---- R19.3 -----------------------------------------------------------------------------------------------------
     def place(av_: Any, dname: str) -> str | None:
@@ -221,19 +292,44 @@ def run(rep: Report, ctx: Any) -> str:
                 return None
         return "is" if got == {"is"} else "inside"
 
-    rebuilt = (("_build_models", "models"), ("_build_api", "api"))
-    for mname, dname in rebuilt:
-        m = proj.methods.get(mname)
-        rep.require(m, f"Project.{mname}")
-        c2 = cfg_of(m, cfgs)
-        # effects on <dname>/, wherever in the region of m they are written (in place or in a helper m calls)
-        removals = {id(e.node) for e, av in real if e.what == "rmtree" and place(av, dname) == "is"}
-        rm = performing(ix, m, lambda c: id(c) in removals, cfgs, must=True)
-        rep.check(bool(rm) and c2.every_path_passes(ENTRY, EXIT, lambda n: n in rm), "R19.3", f"Project.{mname}::rmtree-on-every-path",
-                  f"{dname}/ is not removed on every path through {mname}: stale modules of an earlier generation survive", where(m, m.node),
-                  lhs=[norm(s) for s in rm], rhs="on every path from entry to exit")
+    rebuilt = ("models", "api")
+    successes = [s_ for s_ in cfg.stmts() if isinstance(s_, ast.Return) and s_ not in refusals and not constructs_error(s_.value)]
+
+    def always(e: Any) -> bool:
+        """an effect stated at a call of the helper that performs it happens whenever the call does: on every path through the helper"""
+        o = e.origin
+        if o is None:
+            return True
+        co = cfg_of(o.func, cfgs)
+        at = [s_ for s_ in co.stmts() if any(x is o.node for x in walk_own(s_))]
+        return bool(at) and co.every_path_passes(ENTRY, EXIT, lambda n: n in at) and always(o)
+
+    def removed_first_inside(r: Any, w: Any) -> bool:
+        """removal r and write w are stated at the same call (one helper performs both, e.g. remove-and-recreate): inside the
+        helper the removal comes before the write on every path"""
+        ro, wo = r.origin, w.origin
+        if ro is None or wo is None or ro.func is not wo.func:
+            return False
+        if ro.node is wo.node:
+            return removed_first_inside(ro, wo)
+        ch_ = cfg_of(ro.func, cfgs)
+        first = [s_ for s_ in ch_.stmts() if any(x is ro.node for x in walk_own(s_))]
+        then = [s_ for s_ in ch_.stmts() if any(x is wo.node for x in walk_own(s_))]
+        return bool(first) and bool(then) and all(ch_.is_dominated_by(s_, lambda n: n in first) for s_ in then)
+
+    # everything is stated from build, the one entry of a generation, through whatever methods and helpers it runs: which method
+    # removes, recreates and fills a directory is layout
+    for dname in rebuilt:
+        removing = [e for e, av in real if e.what == "rmtree" and place(av, dname) == "is" and always(e)]
+        removals = {id(e.node) for e in removing}
+        rm = performing(ix, build, lambda c: id(c) in removals, cfgs, must=True)
+        rep.check(bool(rm) and bool(successes) and all(cfg.is_dominated_by(r, lambda n: n in rm) for r in successes), "R19.3",
+                  f"Project.build::{dname}-removed-on-every-path",
+                  f"{dname}/ is not removed on every successful path through build: stale modules of an earlier generation survive",
+                  where(build, build.node), lhs=[norm(s_)[:60] for s_ in rm], rhs="a removal dominates every successful return")
+
         # every write into the directory comes after the rmtree
-        def preceded(f: Any, st: ast.stmt, node: ast.Call, depth: int = 3) -> bool:
+        def preceded(f: Any, st: ast.stmt, node: ast.Call, depth: int = 4) -> bool:
             """statement st of f, at which the write `node` happens, always runs after the removal: a removal dominates it in f, or
             st calls a helper in which this holds (remove-and-recreate extracted into one helper)"""
             cf = cfg_of(f, cfgs)
@@ -247,28 +343,22 @@ def run(rep: Report, ctx: Any) -> str:
             return bool(inner) and all(preceded(g, s2, node, depth - 1) for g, s2 in inner)
 
         for e, av in real:
-            if e.what in ("write_text", "mkdir") and place(av, dname) is not None:
-                for st in performing(ix, m, lambda c: c is e.node, cfgs):
-                    rep.check(preceded(m, st, e.node), "R19.3", f"Project.{mname}::{e.what}({norm(e.target)[:30]})",
-                              f"a write into {dname}/ is not preceded by its removal", where(m, st), lhs=norm(st)[:60], rhs="dominated by rmtree")
+            if e.what in ("write_text", "write_bytes", "mkdir", "makedirs", "open-w", "touch") and place(av, dname) is not None:
+                for st in performing(ix, build, lambda c: c is e.node, cfgs, depth=4):
+                    rep.check(preceded(build, st, e.node) or any(r.node is e.node and removed_first_inside(r, e) for r in removing),
+                              "R19.3", f"{short(e.func)}::{e.what}({norm(e.target)[:30]})",
+                              f"a write into {dname}/ is not preceded by its removal", e.where, lhs=norm(st)[:60], rhs="dominated by rmtree")
     # nothing else is ever removed or moved: only the directories that are rebuilt from the document on every run belong to the
     # generator entirely; everything else in the output location may hold the user's files
     destructive = {"rmtree", "unlink", "rmdir", "remove", "rename", "replace", "move", "removedirs"}
     for e, av in real:
         if e.what in destructive:
-            owned = [d for _, d in rebuilt if place(av, d) is not None]
+            owned = [d for d in rebuilt if place(av, d) is not None]
             rep.check(bool(owned), "R19.3", f"{short(e.func)}::{e.what}({norm(e.target)[:50]})::rebuilt-directory-only",
                       f"`{norm(e.node)[:80]}` removes or moves a path that is not (inside) one of the rebuilt directories "
-                      f"{[d for _, d in rebuilt]}: user files in the output location are lost on regeneration", e.where,
+                      f"{list(rebuilt)}: user files in the output location are lost on regeneration", e.where,
                       lhs=([repr(list(a)) for a in sorted(av.alts, key=repr)][:2] if av is not None and av.alts else norm(e.target)),
                       rhs="<package_dir>/models or <package_dir>/api (or below)")
-    # build() reaches both rebuild steps on every path after the decision
-    for mname in ("_build_models", "_build_api"):
-        calls = [s for s in cfg.stmts() if stmt_calls(s, f"self.{mname}")]
-        rets = [s for s in cfg.stmts() if isinstance(s, ast.Return) and "GeneratorError" not in norm(s)]
-        ok3 = bool(calls) and all(cfg.is_dominated_by(r, lambda n: n in calls) for r in rets)
-        rep.check(ok3, "R19.3", f"Project.build::always-{mname}", f"{mname} is skipped on some successful path", where(build, build.node),
-                  lhs=[norm(c) for c in calls], rhs="dominates every successful return")
     # document-dependent file names only under models/ and api/
     for e, av in real:
         if e.what != "write_text" or av is None or not av.alts:
